@@ -308,11 +308,17 @@ def gen_operands(op, rng, types, pats):
         # one-hot operands in every position (C08-d): patterns WITHOUT physical axes but with a non-unit virtual
         # shape -- one-hot vectors, single-cell matrices, eye(n)[i] -- or one-hot dimensions next to a physical one
         if rng.random() < 0.22:
+            orig = list(specs)
             j = rng.randrange(len(specs))
             specs[j] = U.onehot_like(specs[j], rng, keep=0.25)
             if rng.random() < 0.25:
                 j2 = rng.randrange(len(specs))
                 specs[j2] = U.onehot_like(specs[j2], rng, keep=0.25)
+            # keep the operands TYPED ALIKE: a flat one-hot dimension SumAxis(i, unitAxis, n-i-1) has the type of a
+            # position inside an ATOM of size n (what getitem makes of a physical axis); against a partner whose
+            # dimension type is a sum / product it is a different index type (the library warns "index type
+            # mismatch" and may miss a coincidence) -- outside the property's domain, so such conversions are undone
+            if not _onehot_types_ok(specs): specs[:] = orig
         return specs
     if kind == "where":
         c, pool = partner(t, "bool", None, pool)
@@ -325,6 +331,17 @@ def gen_operands(op, rng, types, pats):
         if rng.random() < 0.5: t["default"] = op.identity
         if rng.random() < 0.4: u["default"] = op.identity
     return onehot([t, u])
+
+def _is_onehot_type(t):
+    return t[0] == "sum" and ("atom", 1) in [tuple(x) for x in t[1]]
+
+def _onehot_types_ok(specs):
+    nd = max(len(sp["types"]) for sp in specs)
+    for r in range(1, nd + 1):
+        ts = [sp["types"][-r] for sp in specs if len(sp["types"]) >= r and U.tsize(sp["types"][-r]) != 1]
+        hot = [t for t in ts if _is_onehot_type(t)]
+        if hot and any(t[0] != "atom" and not _is_onehot_type(t) for t in ts): return False
+    return True
 
 def spec_from_pattern(ts, vax, rng, kind, default, nan):
     paxes = U.fv_list(vax); rng.shuffle(paxes)
@@ -801,9 +818,38 @@ def run_ops(tier, seed, violations, cov, mon):
     types_r = types + U.onehot_types()
     hist = {}; status_hist = {}; n_eval = 0; distinct = set(); samples = []; warn_cases = 0; ptvals = []; ptvals2 = []
     onehot_hist = {}
+    layout_hist = {}; layout_by_op = {}; result_layout_hist = {}; svals = {}
+    def storage_value(p, logical):
+        """wire value of storage_view_check for a torch tensor (small ones only)"""
+        if p.dtype not in (torch.float64, torch.float32, torch.bool) or p.numel() > 64 or p.numel() == 0: return
+        sizes, strides, off, flat = U.storage_view(p)
+        if flat.numel() > 200 or len(svals) >= 4000: return
+        v = (sizes, strides, off, [xv(x) for x in flat.tolist()], [xv(x) for x in logical])
+        svals.setdefault(repr(v), v)
+    def observe_layouts(case, out):
+        for sp in case["operands"]:
+            k = U.layout_kind(sp)
+            layout_hist[k] = layout_hist.get(k, 0) + 1
+            if k != "contiguous":
+                d = layout_by_op.setdefault(case["op"], {}); d[k] = d.get(k, 0) + 1
+                # the harness's claim "this storage holds these logical values", judged by the strided-view model
+                try: storage_value(U.build_tensor(sp).physical, sp["values"])
+                except Exception: pass
+        r = getattr(out, "first_res", None)
+        if hasattr(r, "physical") and hasattr(r, "paxes"):
+            p = r.physical
+            st = [x for x, n in zip(p.stride(), p.size()) if n > 1]
+            k = ("scalar" if not st else "expanded-full" if all(x == 0 for x in st) else "expanded-partial" if 0 in st
+                 else "contiguous" if p.is_contiguous() else "non-contiguous")
+            result_layout_hist[k] = result_layout_hist.get(k, 0) + 1
+            if k not in ("contiguous", "scalar"):
+                # storage made by the library (expand, getitem, any, iter, ...): read through the same model
+                try: storage_value(p, p.reshape(-1).tolist())
+                except Exception: pass
     def judge(case, out):
         nonlocal n_eval, warn_cases
         n_eval += 1
+        observe_layouts(case, out)
         name = case["op"] + ("+" + "+".join(c[0] for c in case.get("chain", [])) if case.get("chain") else "")
         hist[case["op"]] = hist.get(case["op"], 0) + 1
         status_hist[out.status] = status_hist.get(out.status, 0) + 1
@@ -867,10 +913,15 @@ def run_ops(tier, seed, violations, cov, mon):
     cov["tensor_level"] = dict(op_histogram=hist, outcome_histogram=status_hist, compositions=n_chain,
                                exhaustive_pattern_pool=len(patterns), cases_with_type_mismatch_warning=warn_cases,
                                onehot_operand_cases=dict(total=sum(onehot_hist.values()), by_op_and_position=onehot_hist,
-                                                         rule="operand without physical axes whose virtual shape is not all ones"))
+                                                         rule="operand without physical axes whose virtual shape is not all ones"),
+                               storage_layouts=dict(operands=layout_hist, non_contiguous_operands_by_op=layout_by_op,
+                                                    results_of_single_operations=result_layout_hist,
+                                                    rule="layout of the physical tensor handed to the library (operands) / returned by it (results): "
+                                                         "expanded-partial = some but not all strides 0; overlap = two dimensions share a stride"))
     cov["samples"] = samples[:3]
     cov["_ptvals"] = ptvals
     cov["_ptvals2"] = ptvals2
+    cov["_svals"] = list(svals.values())
     return n_eval, len(distinct)
 
 def replay_case(c):
